@@ -167,6 +167,8 @@ func (p *c01) Prepare(t *testing.T, tier string, seed uint64) {
 				add(C01Plan{Attack: "rogueOldEpoch"})
 				add(C01Plan{Attack: "rogueAppend"})
 				add(C01Plan{Attack: "rogueBadHeaderHash"})
+				add(C01Plan{Attack: "zeroEntriesResign", KeyRole: "att1"})
+				add(C01Plan{Attack: "zeroEntriesResign", KeyRole: "owner2"})
 				add(C01Plan{Attack: "rogueForgedHeader"})
 				add(C01Plan{Attack: "rogueForgedHeaderHmacFault", Occur: 1})
 				add(C01Plan{Attack: "rogueForgedHeaderHmacFault", Occur: 2})
@@ -577,6 +579,44 @@ func c01Run(env *Env, pl *C01Plan, collect map[c01Target][]byte) {
 				}
 			}
 		})
+	case "zeroEntriesResign":
+		// a peer without any standing claims an unextended voucher (zero entries:
+		// the manufacturer would be the owner), advertises its own key and signs
+		// with it; header and HMAC are the genuine, public ones
+		key := s.Keys.Get(pl.KeyRole, cfg.Fam())
+		s.Net.AddHook(func(ev *NetEvent) {
+			if ev.Phase == "resp" && ev.To == "dev1" && ev.RespType == 61 && !tampered {
+				b, err := ResignTagged(ev.Body, key, cfg.PSS(), func(sg *cose.Sign1[cbor.RawBytes, []byte]) {
+					pk, _ := PublicKeyFor(cfg, key)
+					sg.Unprotected[cose.Label{Int64: 257}] = pk
+					n, perr := ParseCBOR(sg.Payload.Val)
+					if perr == nil && len(n.Kids) > 1 {
+						n.Kids[1].Arg = 0
+						sg.Payload.Val = n.Encode(nil)
+					}
+				})
+				if err == nil {
+					ev.Body = b
+					ev.Fault("resign")
+					tampered = true
+				}
+			}
+		})
+		if to1d != nil {
+			// with a redirect blob the same peer signs that as well
+			var raw cose.Sign1[cbor.RawBytes, []byte]
+			tb, _ := cbor.Marshal(to1d)
+			if err := cbor.Unmarshal(tb, &raw); err == nil {
+				raw.Protected = nil
+				if err := raw.Sign(key.Key, nil, nil, SignOpts(key, cfg.PSS())); err == nil {
+					tb, _ = cbor.Marshal(raw)
+					var forged to1dT
+					if cbor.Unmarshal(tb, &forged) == nil {
+						to1d = &forged
+					}
+				}
+			}
+		}
 	case "truncChainResign":
 		// earlier owner (owner2) re-signs, advertises its own key and truncates
 		// the entry list to its own entry: the statement allows acceptance
